@@ -23,7 +23,7 @@ variable {K V F : Type} [DecidableEq K]
 
 /-- `is_expired` is the model's `expired` (sync engines: whole seconds of `Instant::elapsed` against the ttl) -/
 theorem is_expired_eq (cfg : Cfg) (hf : cfg.flavour ≠ .async) (now : Nat) (e : Entry V) :
-    is_expired ⟨fun b => now - b⟩ e cfg.ttl = expired cfg now e := by
+    is_expired ⟨fun b => now - b, now⟩ e cfg.ttl = expired cfg now e := by
   have hel : elapsedMs cfg now e.birth = now - e.birth := by
     cases hfl : cfg.flavour <;> simp_all [elapsedMs]
   unfold is_expired expired
